@@ -1,4 +1,4 @@
-(* go-sha256: 0a79c0b3ac596ecde52f72e7049c230604ba8a2525a9ee10119e281e09353b7f *)
+(* go-sha256: 35b2f071131ccf5b51aedf96a036b982b38987575ebac5e5905032c400ed74bd *)
 (* deps: trend_Smma trend_Sma trend_NewSmaWithPeriod trend_Sma_Compute *)
 Definition trend_Smma_Compute (s : trend_Smma) (c : (expr I T)) : (expr I T) :=
   let sma := trend_NewSmaWithPeriod (trend_Smma_Period s) in
